@@ -1,3 +1,803 @@
-import Lomond.Model.Core
+/-
+  C03 — every frame the client writes is a valid client frame that round-trips.
+  Property theorems only (helper lemmas: Proofs/FrameCodec.lean, Proofs/Utf8.lean).
+
+  Two levels.
+  * Frame level (`Model/Frame.lean`): `Frame.build` against the independent server-side decoder
+    `Spec.decodeClientFrame`, which is written from RFC 6455 §5.2 and *rejects* unmasked frames
+    and non-minimal length forms.  Quantified over every opcode, flag bits, payload, key, and
+    whatever bytes follow the frame.
+  * API level (`Model/Core.lean`, `doAct`): what one application call
+    (`send_text` / `send_binary` / `send_ping` / `send_pong` / `close`; `send_json` is
+    `send_text ∘ json.dumps`) does to the system state — in particular to the write log —
+    for every state, configuration, masking-key source and argument, ill-typed ones included.
+-/
+import Lomond.Proofs.FrameCodec
+import Lomond.Proofs.Wire
+import Lomond.Proofs.Utf8
+
 namespace Lomond.C03
+open Lomond Lomond.Core
+
+/-! ## Masking (`mask_payload`) -/
+
+/-- Masking keeps the length. -/
+theorem mask_length (key data : Bytes) : (maskPayload key data).length = data.length :=
+  maskFrom_length key 0 data
+
+/-- Byte `i` of the masked payload is byte `i` of the data XOR `key[i % 4]` (RFC 6455 §5.3). -/
+theorem mask_index (key data : Bytes) (i : Nat) :
+    (maskPayload key data)[i]? = data[i]?.map (fun b => b ^^^ key.getD (i % 4) 0) := by
+  have := maskFrom_getElem? key 0 data i
+  simpa [maskPayload] using this
+
+/-- Masking is an involution: the server's unmasking (the same operation) restores the data,
+    for every key — of any length, any byte values — and every payload. -/
+theorem mask_involutive (key data : Bytes) :
+    maskPayload key (maskPayload key data) = data ∧ Spec.unmask key (maskPayload key data) = data :=
+  ⟨maskFrom_involutive key 0 data, maskFrom_involutive key 0 data⟩
+
+/-- Masked bytes are bytes. -/
+theorem mask_wf (key data : Bytes) (hk : Bytes.WF key) (hd : Bytes.WF data) :
+    Bytes.WF (maskPayload key data) := maskFrom_wf key 0 data hk hd
+
+example : maskPayload [1, 2, 4, 8] [0x10, 0x20, 0x30, 0x40, 0x50, 0xff] = [0x11, 0x22, 0x34, 0x48, 0x51, 0xfd] := by
+  decide
+example : (maskPayload [1, 2, 4, 8] [0x10, 0x20, 0x30, 0x40, 0x50, 0xff])[5]? = some (0xff ^^^ 2) := by decide
+
+/-! ## `Frame.build` -/
+
+/-- **Round trip.**  For every opcode, every combination of FIN/RSV bits, every payload that
+    `Frame.build` accepts (i.e. shorter than 2^63 bytes), every 4-byte key and every
+    continuation `rest` of the byte stream: a conforming server — which insists on MASK=1 and
+    on the minimal length form — reads back exactly the flag bits, the opcode, the key and the
+    caller's payload, and is left with exactly `rest` (the frame is complete and
+    self-delimiting). -/
+theorem roundtrip (opcode fin rsv1 rsv2 rsv3 : Nat) (payload key rest bytes : Bytes)
+    (hop : opcode < 16) (hfin : fin < 2) (h1 : rsv1 < 2) (h2 : rsv2 < 2) (h3 : rsv3 < 2)
+    (hkl : key.length = 4)
+    (hb : Frame.build opcode payload key fin rsv1 rsv2 rsv3 = some bytes) :
+    Spec.decodeClientFrame (bytes ++ rest) =
+      some ({ fin := fin, rsv1 := rsv1, rsv2 := rsv2, rsv3 := rsv3, opcode := opcode,
+              key := key, payload := payload }, rest) :=
+  decode_build opcode fin rsv1 rsv2 rsv3 payload key rest bytes hop hfin h1 h2 h3 hkl hb
+
+example : Spec.decodeClientFrame ((Frame.build 1 [0x48, 0x69] [0xaa, 0xbb, 0xcc, 0xdd]).get! ++ [7, 7]) =
+    some ({ fin := 1, rsv1 := 0, rsv2 := 0, rsv3 := 0, opcode := 1, key := [0xaa, 0xbb, 0xcc, 0xdd],
+            payload := [0x48, 0x69] }, [7, 7]) := by decide
+
+/-- What is written is a byte string: with a byte payload and a byte key every element of the
+    frame is `< 256`. -/
+theorem frame_is_bytes (opcode fin rsv1 rsv2 rsv3 : Nat) (payload key bytes : Bytes)
+    (hop : opcode < 16) (hfin : fin < 2) (h1 : rsv1 < 2) (h2 : rsv2 < 2) (h3 : rsv3 < 2)
+    (hp : Bytes.WF payload) (hk : Bytes.WF key)
+    (hb : Frame.build opcode payload key fin rsv1 rsv2 rsv3 = some bytes) : Bytes.WF bytes :=
+  build_wf opcode fin rsv1 rsv2 rsv3 payload key bytes hop hfin h1 h2 h3 hp hk hb
+
+example : Bytes.WF ((Frame.build 2 [0xff, 0x00, 0x80] [0xff, 0xff, 0x01, 0x80]).get!) := by decide
+
+/-- The length forms of RFC 6455 §5.2. -/
+inductive LenForm
+  | bits7 | bits16 | bits64
+  deriving DecidableEq, Repr
+
+/-- preference order: shorter header first -/
+def LenForm.rank : LenForm → Nat
+  | .bits7 => 0 | .bits16 => 1 | .bits64 => 2
+/-- lengths a form can carry are those below its capacity (7-bit: 0..125, 126/127 are markers;
+    64-bit: the top bit must be 0) -/
+def LenForm.cap : LenForm → Nat
+  | .bits7 => 126 | .bits16 => 65536 | .bits64 => 2 ^ 63
+/-- the 7-bit field of the second header byte -/
+def LenForm.marker (len : Nat) : LenForm → Nat
+  | .bits7 => len | .bits16 => 126 | .bits64 => 127
+/-- the extended length bytes -/
+def LenForm.ext (len : Nat) : LenForm → Bytes
+  | .bits7 => [] | .bits16 => beBytes 2 len | .bits64 => beBytes 8 len
+
+/-- **Shortest length encoding.**  Whenever a header is produced it uses a form `f` that can
+    carry the length, and `f` is the *least* such form: no shorter form could carry it. -/
+theorem shortest (b0 maskBit len : Nat) (h : Bytes) (hh : buildHeader b0 maskBit len = some h) :
+    ∃ f : LenForm, h = [b0, maskBit + f.marker len] ++ f.ext len ∧ len < f.cap ∧
+      ∀ g : LenForm, len < g.cap → f.rank ≤ g.rank := by
+  have hlen : len < 2 ^ 63 := by
+    rcases Nat.lt_or_ge len (2 ^ 63) with h' | h'
+    · exact h'
+    · rw [(buildHeader_none b0 maskBit len).mpr h'] at hh; cases hh
+  by_cases c1 : len < 126
+  · rw [buildHeader_small _ _ _ c1] at hh; cases hh
+    exact ⟨.bits7, rfl, c1, fun g _ => by cases g <;> simp [LenForm.rank]⟩
+  · by_cases c2 : len < 65536
+    · rw [buildHeader_medium _ _ _ (by omega) c2] at hh; cases hh
+      refine ⟨.bits16, rfl, c2, fun g hg => ?_⟩
+      cases g <;> simp [LenForm.rank, LenForm.cap] at hg ⊢; omega
+    · rw [buildHeader_large _ _ _ (by omega) hlen] at hh; cases hh
+      refine ⟨.bits64, rfl, hlen, fun g hg => ?_⟩
+      cases g <;> simp [LenForm.rank, LenForm.cap] at hg ⊢ <;> omega
+
+/-- The same as three equivalences on the header size: 2 bytes iff `len < 126`, 4 bytes iff
+    `126 ≤ len < 65536`, 10 bytes iff `65536 ≤ len` (`< 2^63`). -/
+theorem header_size_iff (b0 maskBit len : Nat) (h : Bytes) (hh : buildHeader b0 maskBit len = some h) :
+    (h.length = 2 ↔ len < 126) ∧ (h.length = 4 ↔ 126 ≤ len ∧ len < 65536) ∧
+    (h.length = 10 ↔ 65536 ≤ len ∧ len < 2 ^ 63) := by
+  obtain ⟨f, rfl, hc, -⟩ := shortest b0 maskBit len h hh
+  have hlen : len < 2 ^ 63 := by
+    rcases Nat.lt_or_ge len (2 ^ 63) with h' | h'
+    · exact h'
+    · rw [(buildHeader_none b0 maskBit len).mpr h'] at hh; cases hh
+  by_cases c1 : len < 126
+  · rw [buildHeader_small _ _ _ c1] at hh
+    cases f <;> simp [LenForm.ext, LenForm.marker, beBytes_length] at hh ⊢ <;> omega
+  · by_cases c2 : len < 65536
+    · rw [buildHeader_medium _ _ _ (by omega) c2] at hh
+      have hl := congrArg (fun o => o.map List.length) hh
+      cases f <;> simp [LenForm.ext, LenForm.marker, beBytes_length] at hl ⊢ <;> omega
+    · rw [buildHeader_large _ _ _ (by omega) hlen] at hh
+      have hl := congrArg (fun o => o.map List.length) hh
+      cases f <;> simp [LenForm.ext, LenForm.marker, beBytes_length] at hl ⊢ <;> omega
+
+/-- `Frame.build` refuses (FrameBuildError) exactly the payloads of 2^63 bytes or more. -/
+theorem too_long_iff (opcode : Nat) (payload key : Bytes) (fin rsv1 rsv2 rsv3 : Nat) :
+    Frame.build opcode payload key fin rsv1 rsv2 rsv3 = none ↔ 2 ^ 63 ≤ payload.length :=
+  build_none opcode payload key fin rsv1 rsv2 rsv3
+
+example : buildHeader 0x81 128 125 = some [0x81, 253] := by decide
+example : buildHeader 0x81 128 126 = some [0x81, 254, 0, 126] := by decide
+example : buildHeader 0x82 128 65535 = some [0x82, 254, 255, 255] := by decide
+example : buildHeader 0x82 128 65536 = some [0x82, 255, 0, 0, 0, 0, 0, 1, 0, 0] := by decide
+example : buildHeader 0x82 128 (2 ^ 63) = none := by decide
+
+/-- **Masked, FIN set, reserved bits clear** (the default arguments used by every API call):
+    the first byte is `0x80 | opcode`, the second has the MASK bit. -/
+theorem masked_and_fin (opcode : Nat) (payload key bytes : Bytes)
+    (hb : Frame.build opcode payload key = some bytes) :
+    ∃ b1 tail, bytes = (128 + opcode) :: b1 :: tail ∧ 128 ≤ b1 := by
+  have hlen : payload.length < 2 ^ 63 := by
+    rcases Nat.lt_or_ge payload.length (2 ^ 63) with h' | h'
+    · exact h'
+    · rw [(build_none opcode payload key 1 0 0 0).mpr h'] at hb; cases hb
+  have hb0 : byte0 1 0 0 0 opcode = 128 + opcode := by simp [byte0]
+  by_cases c1 : payload.length < 126
+  · rw [build_small _ _ _ _ _ _ _ c1, hb0] at hb; cases hb
+    exact ⟨_, _, rfl, by omega⟩
+  · by_cases c2 : payload.length < 65536
+    · rw [build_medium _ _ _ _ _ _ _ (by omega) c2, hb0] at hb; cases hb
+      exact ⟨_, _, rfl, by omega⟩
+    · rw [build_large _ _ _ _ _ _ _ (by omega) hlen, hb0] at hb; cases hb
+      exact ⟨_, _, rfl, by omega⟩
+
+example : Frame.build 9 [1, 2, 3] [0, 0, 0, 0] = some [0x89, 0x83, 0, 0, 0, 0, 1, 2, 3] := by decide
+
+/-! ## API level: one call, one frame -/
+
+/-- `Frame.build_close_payload` as the property states it: nothing for `None`, otherwise the
+    2-byte code followed by the reason; `none` = cannot be sent -/
+def closeWire (code : Option Nat) (reason : Bytes) : Option (Nat × Bytes) :=
+  match code with
+  | none => some (Gen.opClose, [])
+  | some c =>
+    if c < 65536 ∧ 2 + reason.length ≤ 125 then some (Gen.opClose, beBytes 2 c ++ reason) else none
+
+/-- **Specification of the API** (from the property text): the opcode and the payload the call
+    must put on the wire; `none` = the arguments cannot be sent (wrong type, lone surrogate,
+    oversize control payload, close code that does not fit 16 bits). -/
+def wirePayload : Act → Option (Nat × Bytes)
+  | .sendText (.str cps) _ => if hasSurrogate cps then none else some (Gen.opText, Utf8.encode cps)
+  | .sendBinary (.bytes b) _ => some (Gen.opBinary, b)
+  | .sendPing (.bytes b) => if b.length ≤ 125 then some (Gen.opPing, b) else none
+  | .sendPong (.bytes b) => if b.length ≤ 125 then some (Gen.opPong, b) else none
+  | .close code (.bytes rb) => closeWire code rb
+  | .close code (.str cps) => closeWire code (encodeReplace cps)   -- `errors='replace'`: a lone surrogate becomes `?`
+  | _ => none
+
+/-- the call asks for compression (`compress=True`) -/
+def wantsCompress : Act → Bool
+  | .sendText _ c => c
+  | .sendBinary _ c => c
+  | _ => false
+
+def isClose : Act → Bool
+  | .close _ _ => true
+  | _ => false
+
+/-- one of the sending API methods (`send_json` is `send_text ∘ json.dumps`) -/
+def isSendCall : Act → Bool
+  | .sendText _ _ | .sendBinary _ _ | .sendPing _ | .sendPong _ | .close _ _ => true
+  | _ => false
+
+/-- the argument has the type the method requires -/
+def wellTyped : Act → Bool
+  | .sendText (.str _) _ | .sendBinary (.bytes _) _ | .sendPing (.bytes _) | .sendPong (.bytes _) => true
+  | .close _ (.bytes _) | .close _ (.str _) => true
+  | _ => false
+
+/-- the state after an accepted call that logged `o` for its write: one key drawn, one
+    `sendall`, the result recorded; `close()` additionally enters the closing state -/
+def afterCall (a : Act) (s : Sys) (o : Obs) : Sys :=
+  if isClose a then
+    resState { sentState s o with closing := true, sentCloseTime := some (sessionTime s) } .ok
+  else resState (sentState s o) .ok
+
+/-- The specification itself only ever asks for the five opcodes a client sends, and never for a
+    control payload above 125 bytes. -/
+theorem wirePayload_op (a : Act) (op : Nat) (payload : Bytes) (hw : wirePayload a = some (op, payload)) :
+    (op = 1 ∨ op = 2 ∨ op = 8 ∨ op = 9 ∨ op = 10) ∧ (8 ≤ op → payload.length ≤ 125) := by
+  have hcw : ∀ code rb, closeWire code rb = some (op, payload) → op = 8 ∧ payload.length ≤ 125 := by
+    intro code rb h
+    unfold closeWire at h
+    cases code with
+    | none => simp at h; obtain ⟨rfl, rfl⟩ := h; exact ⟨rfl, by simp⟩
+    | some c =>
+      simp only at h
+      split at h
+      · simp at h; obtain ⟨rfl, rfl⟩ := h
+        refine ⟨rfl, ?_⟩
+        simp only [List.length_append, beBytes_length]; omega
+      · cases h
+  cases a with
+  | sendText arg c =>
+    cases arg <;> simp [wirePayload] at hw
+    obtain ⟨_, rfl, _⟩ := hw; simp [Gen.opText]
+  | sendBinary arg c =>
+    cases arg <;> simp [wirePayload] at hw
+    obtain ⟨rfl, _⟩ := hw; simp [Gen.opBinary]
+  | sendPing arg =>
+    cases arg <;> simp [wirePayload] at hw
+    obtain ⟨h, rfl, rfl⟩ := hw; simp [Gen.opPing]; omega
+  | sendPong arg =>
+    cases arg <;> simp [wirePayload] at hw
+    obtain ⟨h, rfl, rfl⟩ := hw; simp [Gen.opPong]; omega
+  | close code arg =>
+    cases arg with
+    | bytes rb => obtain ⟨rfl, h⟩ := hcw code rb hw; exact ⟨by simp, fun _ => h⟩
+    | str cps => obtain ⟨rfl, h⟩ := hcw code _ hw; exact ⟨by simp, fun _ => h⟩
+    | other => simp [wirePayload] at hw
+  | sessionClose => simp [wirePayload] at hw
+  | abandon w => simp [wirePayload] at hw
+
+/-- What the specification says a sendable `close(code, reason)` carries: opcode 8 and
+    `build_close_payload(code, reason)`, with a 16-bit code and at most 125 bytes in all. -/
+theorem closeWire_spec (code : Option Nat) (rb : Bytes) (op : Nat) (payload : Bytes)
+    (h : closeWire code rb = some (op, payload)) :
+    op = Gen.opClose ∧ payload = buildClosePayload code rb ∧ (∀ c, code = some c → c < 65536) ∧
+      (buildClosePayload code rb).length ≤ 125 := by
+  unfold closeWire at h
+  cases code with
+  | none =>
+    simp at h; obtain ⟨rfl, rfl⟩ := h
+    exact ⟨rfl, rfl, fun c hc => (by cases hc), by simp [buildClosePayload]⟩
+  | some c =>
+    simp only at h
+    split at h
+    · rename_i hc
+      simp at h; obtain ⟨rfl, rfl⟩ := h
+      refine ⟨rfl, rfl, fun c' hc' => by cases hc'; exact hc.1, ?_⟩
+      simp only [buildClosePayload, List.length_append, beBytes_length]; omega
+    · cases h
+
+/-- **One accepted call writes exactly one frame** (master statement).  For every call whose
+    arguments can be sent (`wirePayload a = some (op, payload)`), in every state in which the
+    connection accepts a write, for every configuration and key source: the call returns
+    normally, draws exactly one masking key, makes exactly one `sendall`, and the system state
+    changes in nothing else (`afterCall`; `close()` also enters the closing state).  What was
+    written is the compressed form of exactly this opcode and payload when compression was
+    both requested and negotiated, and otherwise exactly
+    `Frame.build op payload (next masking key)` with default flags. -/
+theorem accepted_call (a : Act) (s : Sys) (op : Nat) (payload : Bytes)
+    (hw : wirePayload a = some (op, payload)) (hlen : payload.length < 2 ^ 63) (hs : Accepting s) :
+    ∃ o, doAct a s = .ok () (afterCall a s o) ∧
+      ((wantsCompress a = true ∧ s.compression.isSome = true) → o = .wrz op payload) ∧
+      (¬ (wantsCompress a = true ∧ s.compression.isSome = true) →
+        ∃ bytes, Frame.build op payload (s.cfg.maskKey s.keyCtr) = some bytes ∧ o = .wr bytes) := by
+  obtain ⟨bytes, hb⟩ := build_some op payload (s.cfg.maskKey s.keyCtr) hlen
+  -- data frames: `sendData` chooses between the compressed and the plain path
+  have data : ∀ (c : Bool) (m : M ActRes), m = sendData op payload c →
+      ∃ o, logRes m s = .ok () (resState (sentState s o) .ok) ∧
+        ((c = true ∧ s.compression.isSome = true) → o = .wrz op payload) ∧
+        (¬ (c = true ∧ s.compression.isSome = true) →
+          ∃ bytes, Frame.build op payload (s.cfg.maskKey s.keyCtr) = some bytes ∧ o = .wr bytes) := by
+    intro c m hm
+    subst hm
+    by_cases hc : c = true ∧ s.compression.isSome = true
+    · exact ⟨.wrz op payload, logRes_ok_wire (sendData_compressed op payload c s hs hc), fun _ => rfl,
+        fun h => absurd hc h⟩
+    · exact ⟨.wr bytes, logRes_ok_wire (sendData_plain op payload bytes c s hs hc hb),
+        fun h => absurd h hc, fun _ => ⟨bytes, hb, rfl⟩⟩
+  -- control frames: always the plain path
+  have ctrl : ∀ (m : M ActRes), m = sendFrame op payload none →
+      ∃ o, logRes m s = .ok () (resState (sentState s o) .ok) ∧
+        ((false = true ∧ s.compression.isSome = true) → o = .wrz op payload) ∧
+        (¬ (false = true ∧ s.compression.isSome = true) →
+          ∃ bytes, Frame.build op payload (s.cfg.maskKey s.keyCtr) = some bytes ∧ o = .wr bytes) := by
+    intro m hm
+    subst hm
+    exact ⟨.wr bytes, logRes_ok_wire (sendFrame_plain op payload bytes s hs hb),
+      fun h => (by cases h.1), fun _ => ⟨bytes, hb, rfl⟩⟩
+  have close : ∀ code reason rb, argBytes reason = some rb → closeWire code rb = some (op, payload) →
+      ∃ o, doAct (.close code reason) s = .ok () (afterCall (.close code reason) s o) ∧
+        ((false = true ∧ s.compression.isSome = true) → o = .wrz op payload) ∧
+        (¬ (false = true ∧ s.compression.isSome = true) →
+          ∃ bytes, Frame.build op payload (s.cfg.maskKey s.keyCtr) = some bytes ∧ o = .wr bytes) := by
+    intro code reason rb hr hcw
+    obtain ⟨rfl, rfl, hc, hl⟩ := closeWire_spec code rb op payload hcw
+    exact ⟨.wr bytes, logRes_ok_wire (wsClose_accept code reason rb bytes s hs hr hc hl hb),
+      fun h => (by cases h.1), fun _ => ⟨bytes, hb, rfl⟩⟩
+  cases a with
+  | sendText arg c =>
+    cases arg <;> simp [wirePayload] at hw
+    obtain ⟨hns, rfl, rfl⟩ := hw
+    exact data c _ (by simp [hns])
+  | sendBinary arg c =>
+    cases arg <;> simp [wirePayload] at hw
+    obtain ⟨rfl, rfl⟩ := hw
+    exact data c _ rfl
+  | sendPing arg =>
+    cases arg with
+    | bytes b =>
+      simp [wirePayload] at hw
+      obtain ⟨h, rfl, rfl⟩ := hw
+      exact ctrl _ (by simp [show ¬ b.length > 125 by omega])
+    | str _ => simp [wirePayload] at hw
+    | other => simp [wirePayload] at hw
+  | sendPong arg =>
+    cases arg with
+    | bytes b =>
+      simp [wirePayload] at hw
+      obtain ⟨h, rfl, rfl⟩ := hw
+      exact ctrl _ (by simp [show ¬ b.length > 125 by omega])
+    | str _ => simp [wirePayload] at hw
+    | other => simp [wirePayload] at hw
+  | close code arg =>
+    cases arg with
+    | bytes rb => exact close code _ rb rfl hw
+    | str cps => exact close code _ _ rfl hw
+    | other => simp [wirePayload] at hw
+  | sessionClose => simp [wirePayload] at hw
+  | abandon w => simp [wirePayload] at hw
+
+/-- a ready, open connection with `permessage-deflate` not negotiated (for the examples) -/
+def exState : Sys :=
+  { cfg := { maskKey := (fun k => [k + 1, 0x37, 0xfa, 0x21]) }, react := (fun _ => []), env := [], sockOpen := true }
+
+example : Accepting exState := ⟨rfl, rfl, rfl, rfl⟩
+example : wirePayload (.sendText (.str [0x48, 0x20AC]) true) = some (1, [0x48, 0xE2, 0x82, 0xAC]) := by decide
+example : wirePayload (.close (some 1000) (.bytes [0x62, 0x79, 0x65])) = some (8, [3, 232, 0x62, 0x79, 0x65]) := by
+  decide
+example : (doAct (.sendText (.str [0x48, 0x20AC]) true) exState).state.trace =
+    [.res .ok, .wr [0x81, 0x84, 1, 0x37, 0xfa, 0x21, 0x49, 0xd5, 0x78, 0x8d]] := by decide
+
+/-- **One frame per accepted call** (uncompressed path, as a trace statement): the trace grows by
+    exactly `[.res .ok, .wr bytes]` with `bytes = Frame.build op payload key`, `key` the next
+    masking key; nothing else is written and no error is recorded. -/
+theorem one_frame_per_accepted_call (a : Act) (s : Sys) (op : Nat) (payload : Bytes)
+    (hw : wirePayload a = some (op, payload)) (hlen : payload.length < 2 ^ 63) (hs : Accepting s)
+    (hnc : ¬ (wantsCompress a = true ∧ s.compression.isSome = true)) :
+    ∃ bytes, Frame.build op payload (s.cfg.maskKey s.keyCtr) = some bytes ∧
+      doAct a s = .ok () (afterCall a s (.wr bytes)) ∧
+      (doAct a s).state.trace = [.res .ok, .wr bytes] ++ s.trace ∧
+      (doAct a s).state.keyCtr = s.keyCtr + 1 ∧ (doAct a s).state.writeCtr = s.writeCtr + 1 := by
+  obtain ⟨o, hd, -, h2⟩ := accepted_call a s op payload hw hlen hs
+  obtain ⟨bytes, hb, rfl⟩ := h2 hnc
+  refine ⟨bytes, hb, hd, ?_⟩
+  rw [hd]
+  unfold afterCall
+  split <;> exact ⟨rfl, rfl, rfl⟩
+
+/-- **Accepted calls round-trip.**  The bytes an accepted (uncompressed) call hands to `sendall`
+    are one complete client frame: a conforming server decodes FIN=1, RSV1-3=0, the expected
+    opcode, the drawn key and *exactly the caller's payload* (UTF-8 of the text / the bytes /
+    2-byte code ++ reason), with nothing left over — and a control frame's payload is at most
+    125 bytes.  (`rest`: also when more frames follow in the same TCP stream.) -/
+theorem accepted_call_roundtrips (a : Act) (s : Sys) (op : Nat) (payload : Bytes)
+    (hw : wirePayload a = some (op, payload)) (hlen : payload.length < 2 ^ 63) (hs : Accepting s)
+    (hnc : ¬ (wantsCompress a = true ∧ s.compression.isSome = true))
+    (hk : (s.cfg.maskKey s.keyCtr).length = 4) :
+    ∃ bytes, (doAct a s).state.trace = [.res .ok, .wr bytes] ++ s.trace ∧
+      (∀ rest, Spec.decodeClientFrame (bytes ++ rest) =
+        some ({ fin := 1, rsv1 := 0, rsv2 := 0, rsv3 := 0, opcode := op,
+                key := s.cfg.maskKey s.keyCtr, payload := payload }, rest)) ∧
+      (8 ≤ op → payload.length ≤ 125) := by
+  obtain ⟨bytes, hb, -, ht, -⟩ := one_frame_per_accepted_call a s op payload hw hlen hs hnc
+  obtain ⟨hop, hctl⟩ := wirePayload_op a op payload hw
+  refine ⟨bytes, ht, fun rest => ?_, hctl⟩
+  exact roundtrip op 1 0 0 0 payload _ rest bytes (by omega) (by omega) (by omega) (by omega) (by omega) hk hb
+
+example : ∃ bytes, (doAct (.close (some 1000) (.str [0x62, 0x79, 0x65])) exState).state.trace = [.res .ok, .wr bytes] ∧
+    Spec.decodeClientFrame bytes =
+      some ({ fin := 1, rsv1 := 0, rsv2 := 0, rsv3 := 0, opcode := 8, key := [1, 0x37, 0xfa, 0x21],
+              payload := [3, 232, 0x62, 0x79, 0x65] }, []) :=
+  ⟨[0x88, 0x85, 1, 0x37, 0xfa, 0x21, 2, 0xdf, 0x98, 0x58, 0x64], by decide, by decide⟩
+
+/-- **Text round-trips to the text.**  For `send_text(text)` the payload a server decodes is the
+    strict UTF-8 encoding of `text`: decoding it gives back the very code points (a Python `str`
+    without lone surrogates is a sequence of scalar values). -/
+theorem text_roundtrips (cps : List Nat) (c : Bool) (op : Nat) (payload : Bytes)
+    (hu : ∀ cp ∈ cps, cp ≤ 0x10FFFF)
+    (hw : wirePayload (.sendText (.str cps) c) = some (op, payload)) :
+    op = 1 ∧ Utf8.decode payload = some cps := by
+  simp [wirePayload] at hw
+  obtain ⟨hns, rfl, rfl⟩ := hw
+  refine ⟨rfl, Utf8.decode_encode cps ?_⟩
+  intro cp hcp
+  have h1 := hu cp hcp
+  have h2 : ¬ (0xD800 ≤ cp ∧ cp ≤ 0xDFFF) := by
+    intro hx
+    have : hasSurrogate cps = true := by
+      unfold hasSurrogate
+      rw [List.any_eq_true]
+      exact ⟨cp, hcp, by simp [hx.1, hx.2]⟩
+    rw [this] at hns; cases hns
+  unfold Utf8.isScalar
+  simp only [Bool.or_eq_true, Bool.and_eq_true, decide_eq_true_eq]
+  omega
+
+example : wirePayload (.sendText (.str [0x24, 0xA2, 0x20AC, 0x10348]) false) =
+    some (1, [0x24, 0xC2, 0xA2, 0xE2, 0x82, 0xAC, 0xF0, 0x90, 0x8D, 0x88]) := by decide
+
+/-- **RSV1 ⇔ compression negotiated ∧ requested.**  An accepted call writes a compressed
+    (RSV1) frame iff the caller asked for compression *and* `permessage-deflate` was negotiated;
+    the compressed frame carries exactly the call's opcode and payload; in every other case a
+    plain frame with RSV1 = 0 is written (see `accepted_call_roundtrips`). -/
+theorem rsv1_iff (a : Act) (s : Sys) (op : Nat) (payload : Bytes)
+    (hw : wirePayload a = some (op, payload)) (hlen : payload.length < 2 ^ 63) (hs : Accepting s) :
+    ∃ o, (doAct a s).state.trace = [.res .ok, o] ++ s.trace ∧
+      ((∃ op' plain, o = .wrz op' plain) ↔ (wantsCompress a = true ∧ s.compression.isSome = true)) ∧
+      (∀ op' plain, o = .wrz op' plain → op' = op ∧ plain = payload) := by
+  obtain ⟨o, hd, h1, h2⟩ := accepted_call a s op payload hw hlen hs
+  refine ⟨o, ?_, ⟨?_, ?_⟩, ?_⟩
+  · rw [hd]; unfold afterCall; split <;> rfl
+  · rintro ⟨op', plain, rfl⟩
+    by_cases hc : wantsCompress a = true ∧ s.compression.isSome = true
+    · exact hc
+    · obtain ⟨bytes, -, hx⟩ := h2 hc; cases hx
+  · intro hc; exact ⟨op, payload, h1 hc⟩
+  · intro op' plain ho
+    by_cases hc : wantsCompress a = true ∧ s.compression.isSome = true
+    · have := h1 hc; rw [this] at ho; cases ho; exact ⟨rfl, rfl⟩
+    · obtain ⟨bytes, -, hx⟩ := h2 hc; rw [hx] at ho; cases ho
+
+example : (doAct (.sendBinary (.bytes [1, 2, 3]) true)
+    { exState with compression := some default }).state.trace = [.res .ok, .wrz 2 [1, 2, 3]] := by decide
+example : (doAct (.sendBinary (.bytes [1, 2, 3]) false)
+    { exState with compression := some default }).state.trace =
+      [.res .ok, .wr [0x82, 0x83, 1, 0x37, 0xfa, 0x21, 0, 0x35, 0xf9]] := by decide
+
+/-! ## Rejected calls -/
+
+/-- **A call whose arguments cannot be sent writes nothing.**  For every sending API call with
+    unsendable arguments (wrong type, lone surrogate in the text, ping/pong payload over 125
+    bytes, close payload over 125 bytes, close code that does not fit 16 bits), in *every*
+    state: the result is TypeError or ValueError and the state is unchanged except for the
+    harness's record of that result — nothing written, no masking key drawn, the websocket not
+    put into the closing state.  Well-typed but unsendable arguments give ValueError; an
+    ill-typed argument to a `send_*` method gives TypeError.
+    (`close()` on an already closed/closing websocket does not look at its arguments at all;
+    that case is `close_when_closing_is_noop`.) -/
+theorem reject_writes_nothing (a : Act) (s : Sys) (hv : s.cfg.v.closeArgs = true)
+    (ha : isSendCall a = true) (hw : wirePayload a = none)
+    (hc : isClose a = true → s.closed = false ∧ s.closing = false) :
+    ∃ r, (r = .typeError ∨ r = .valueError) ∧ doAct a s = .ok () (resState s r) ∧
+      (wellTyped a = true → r = .valueError) ∧
+      (wellTyped a = false → isClose a = false → r = .typeError) := by
+  have closeRej : ∀ code reason, (∀ rb, argBytes reason = some rb → closeWire code rb = none) →
+      s.closed = false ∧ s.closing = false →
+      ∃ r, (r = ActRes.typeError ∨ r = .valueError) ∧
+        doAct (.close code reason) s = .ok () (resState s r) ∧ (argBytes reason ≠ none → r = .valueError) := by
+    intro code reason hcw hcl
+    have hbad : ∀ rb, argBytes reason = some rb →
+        (∃ c, code = some c ∧ 65536 ≤ c) ∨ 125 < (buildClosePayload code rb).length := by
+      intro rb hrb
+      have := hcw rb hrb
+      unfold closeWire at this
+      cases code with
+      | none => cases this
+      | some c =>
+        simp only at this
+        split at this
+        · cases this
+        · rename_i hx
+          simp only [buildClosePayload, List.length_append, beBytes_length]
+          by_cases hc : 65536 ≤ c
+          · exact Or.inl ⟨c, rfl, hc⟩
+          · right; omega
+    obtain ⟨r, hr, hv', he⟩ := wsClose_reject code reason s hv hcl.1 hcl.2 hbad
+    exact ⟨r, hr, logRes_ok_wire he, hv'⟩
+  cases a with
+  | sendText arg c =>
+    cases arg with
+    | str cps =>
+      simp [wirePayload] at hw
+      refine ⟨.valueError, Or.inr rfl, ?_, fun _ => rfl, fun h => by simp [wellTyped] at h⟩
+      show logRes (if hasSurrogate cps = true then pure .valueError else _) s = _
+      rw [if_pos hw]; rfl
+    | bytes b => exact ⟨.typeError, Or.inl rfl, rfl, fun h => by simp [wellTyped] at h, fun _ _ => rfl⟩
+    | other => exact ⟨.typeError, Or.inl rfl, rfl, fun h => by simp [wellTyped] at h, fun _ _ => rfl⟩
+  | sendBinary arg c =>
+    cases arg with
+    | bytes b => simp [wirePayload] at hw
+    | str cps => exact ⟨.typeError, Or.inl rfl, rfl, fun h => by simp [wellTyped] at h, fun _ _ => rfl⟩
+    | other => exact ⟨.typeError, Or.inl rfl, rfl, fun h => by simp [wellTyped] at h, fun _ _ => rfl⟩
+  | sendPing arg =>
+    cases arg with
+    | bytes b =>
+      simp [wirePayload] at hw
+      refine ⟨.valueError, Or.inr rfl, ?_, fun _ => rfl, fun h => by simp [wellTyped] at h⟩
+      show logRes (if b.length > 125 then pure .valueError else _) s = _
+      rw [if_pos hw]; rfl
+    | str cps => exact ⟨.typeError, Or.inl rfl, rfl, fun h => by simp [wellTyped] at h, fun _ _ => rfl⟩
+    | other => exact ⟨.typeError, Or.inl rfl, rfl, fun h => by simp [wellTyped] at h, fun _ _ => rfl⟩
+  | sendPong arg =>
+    cases arg with
+    | bytes b =>
+      simp [wirePayload] at hw
+      refine ⟨.valueError, Or.inr rfl, ?_, fun _ => rfl, fun h => by simp [wellTyped] at h⟩
+      show logRes (if b.length > 125 then pure .valueError else _) s = _
+      rw [if_pos hw]; rfl
+    | str cps => exact ⟨.typeError, Or.inl rfl, rfl, fun h => by simp [wellTyped] at h, fun _ _ => rfl⟩
+    | other => exact ⟨.typeError, Or.inl rfl, rfl, fun h => by simp [wellTyped] at h, fun _ _ => rfl⟩
+  | close code arg =>
+    have hcl := hc rfl
+    cases arg with
+    | bytes rb =>
+      obtain ⟨r, hr, hd, hv'⟩ := closeRej code (.bytes rb) (fun rb' h => by cases h; exact hw) hcl
+      exact ⟨r, hr, hd, fun _ => hv' (by simp [argBytes]), fun _ h => by simp [isClose] at h⟩
+    | str cps =>
+      obtain ⟨r, hr, hd, hv'⟩ := closeRej code (.str cps) (fun rb' h => by cases h; exact hw) hcl
+      exact ⟨r, hr, hd, fun _ => hv' (by simp [argBytes]), fun _ h => by simp [isClose] at h⟩
+    | other =>
+      obtain ⟨r, hr, hd, -⟩ := closeRej code .other (fun rb' h => by cases h) hcl
+      exact ⟨r, hr, hd, fun h => by simp [wellTyped] at h, fun _ h => by simp [isClose] at h⟩
+  | sessionClose => simp [isSendCall] at ha
+  | abandon w => simp [isSendCall] at ha
+
+set_option maxRecDepth 4096 in
+example : (doAct (.sendPing (.bytes (List.replicate 126 0))) exState).state.trace = [.res .valueError] := by decide
+set_option maxRecDepth 4096 in
+example : (doAct (.close (some 1000) (.bytes (List.replicate 124 0x78))) exState).state.trace = [.res .valueError] := by
+  decide
+example : (doAct (.close (some 65536) (.bytes [])) exState).state.trace = [.res .valueError] := by decide
+example : (doAct (.close (some 70000) .other) exState).state.trace = [.res .valueError] := by decide
+example : (doAct (.close (some 1000) .other) exState).state.trace = [.res .typeError] := by decide
+example : (doAct (.sendText (.str [0x61, 0xD800]) true) exState).state.trace = [.res .valueError] := by decide
+example : (doAct (.sendText (.bytes [0x61]) true) exState).state.trace = [.res .typeError] := by decide
+example : (doAct (.sendBinary .other true) exState).state.trace = [.res .typeError] := by decide
+
+/-- `close()` on a websocket that is already closed or closing returns normally and does
+    nothing at all (no second Close frame). -/
+theorem close_when_closing_is_noop (code : Option Nat) (reason : Arg) (s : Sys)
+    (h : s.closed = true ∨ s.closing = true) :
+    doAct (.close code reason) s = .ok () (resState s .ok) :=
+  logRes_ok_wire (wsClose_noop code reason s h)
+
+example : doAct (.close (some 1000) (.bytes [])) { exState with closing := true } =
+    .ok () (resState { exState with closing := true } .ok) := rfl
+
+/-! ## Every state: a call writes at most its own frame -/
+
+/-- **In every state** (socket present or not, closed, closing, writes failing, …), for every
+    call with any arguments, the repaired code adds to the write log at most one entry, and
+    * a plain frame it writes is `Frame.build op payload key` for exactly the `(op, payload)`
+      the specification `wirePayload` assigns to the call — so nothing is ever written for
+      unsendable arguments, and never anything but the caller's data;
+    * a compressed frame is written only if compression was requested and negotiated, and it
+      carries exactly the call's opcode and payload. -/
+theorem writes_only_the_frame (a : Act) (s : Sys) (hv : s.cfg.v.closeArgs = true) :
+    ∃ l, (doAct a s).state.trace = l ++ s.trace ∧ (l.filter isWriteObs).length ≤ 1 ∧
+      (∀ bytes, Obs.wr bytes ∈ l → ∃ op payload, wirePayload a = some (op, payload) ∧
+        Frame.build op payload (s.cfg.maskKey s.keyCtr) = some bytes) ∧
+      (∀ op plain, Obs.wrz op plain ∈ l →
+        wirePayload a = some (op, plain) ∧ wantsCompress a = true ∧ s.compression.isSome = true) := by
+  -- a call that is `logRes m` where `m` adds at most one entry `l` with the two properties
+  have viaLog : ∀ (m : M ActRes), doAct a = logRes m →
+      (∃ r s' l, m s = .ok r s' ∧ s'.trace = l ++ s.trace ∧ l.length ≤ 1 ∧
+        (∀ bytes, Obs.wr bytes ∈ l → ∃ op payload, wirePayload a = some (op, payload) ∧
+          Frame.build op payload (s.cfg.maskKey s.keyCtr) = some bytes) ∧
+        (∀ op plain, Obs.wrz op plain ∈ l →
+          wirePayload a = some (op, plain) ∧ wantsCompress a = true ∧ s.compression.isSome = true)) →
+      ∃ l, (doAct a s).state.trace = l ++ s.trace ∧ (l.filter isWriteObs).length ≤ 1 ∧
+        (∀ bytes, Obs.wr bytes ∈ l → ∃ op payload, wirePayload a = some (op, payload) ∧
+          Frame.build op payload (s.cfg.maskKey s.keyCtr) = some bytes) ∧
+        (∀ op plain, Obs.wrz op plain ∈ l →
+          wirePayload a = some (op, plain) ∧ wantsCompress a = true ∧ s.compression.isSome = true) := by
+    intro m hd ⟨r, s', l, hm, ht, hl, hwr, hwz⟩
+    refine ⟨.res r :: l, by rw [hd]; exact logRes_trace hm ht, ?_, ?_, ?_⟩
+    · have : (List.filter isWriteObs (Obs.res r :: l)) = List.filter isWriteObs l := by
+        simp [List.filter_cons, isWriteObs]
+      rw [this]
+      exact Nat.le_trans (List.length_filter_le _ _) hl
+    · intro bytes hm'
+      simp only [List.mem_cons, reduceCtorEq, false_or] at hm'
+      exact hwr bytes hm'
+    · intro op plain hm'
+      simp only [List.mem_cons, reduceCtorEq, false_or] at hm'
+      exact hwz op plain hm'
+  -- a call that is refused before anything happens
+  have refused : ∀ r : ActRes, doAct a = logRes (pure r) →
+      ∃ l, (doAct a s).state.trace = l ++ s.trace ∧ (l.filter isWriteObs).length ≤ 1 ∧
+        (∀ bytes, Obs.wr bytes ∈ l → ∃ op payload, wirePayload a = some (op, payload) ∧
+          Frame.build op payload (s.cfg.maskKey s.keyCtr) = some bytes) ∧
+        (∀ op plain, Obs.wrz op plain ∈ l →
+          wirePayload a = some (op, plain) ∧ wantsCompress a = true ∧ s.compression.isSome = true) :=
+    fun r hd => viaLog _ hd ⟨r, s, [], rfl, rfl, by simp, by simp, by simp⟩
+  cases a with
+  | sendText arg c =>
+    cases arg with
+    | str cps =>
+      by_cases hsur : hasSurrogate cps = true
+      · exact refused .valueError (by simp [doAct, hsur])
+      · refine viaLog (sendData Gen.opText (Utf8.encode cps) c) (by simp [doAct, hsur]) ?_
+        obtain ⟨r, s', l, h, ht, hl, hwr, hwz⟩ := sendData_trace Gen.opText (Utf8.encode cps) c s
+        refine ⟨r, s', l, h, ht, hl, ?_, ?_⟩
+        · intro bytes hm
+          exact ⟨_, _, by simp [wirePayload, hsur], hwr bytes hm⟩
+        · intro op plain hm
+          obtain ⟨rfl, rfl, hc, hn⟩ := hwz op plain hm
+          exact ⟨by simp [wirePayload, hsur], hc, hn⟩
+    | bytes b => exact refused .typeError rfl
+    | other => exact refused .typeError rfl
+  | sendBinary arg c =>
+    cases arg with
+    | bytes b =>
+      refine viaLog (sendData Gen.opBinary b c) rfl ?_
+      obtain ⟨r, s', l, h, ht, hl, hwr, hwz⟩ := sendData_trace Gen.opBinary b c s
+      refine ⟨r, s', l, h, ht, hl, ?_, ?_⟩
+      · intro bytes hm
+        exact ⟨_, _, rfl, hwr bytes hm⟩
+      · intro op plain hm
+        obtain ⟨rfl, rfl, hc, hn⟩ := hwz op plain hm
+        exact ⟨rfl, hc, hn⟩
+    | str cps => exact refused .typeError rfl
+    | other => exact refused .typeError rfl
+  | sendPing arg =>
+    cases arg with
+    | bytes b =>
+      by_cases hbig : b.length > 125
+      · exact refused .valueError (by simp [doAct, hbig])
+      · refine viaLog (sendFrame Gen.opPing b none) (by simp [doAct, hbig]) ?_
+        obtain ⟨r, s', l, h, ht, hl, hwr, hwz⟩ := sendFrame_trace Gen.opPing b none s
+        refine ⟨r, s', l, h, ht, hl, ?_, ?_⟩
+        · intro bytes hm
+          exact ⟨_, _, by simp [wirePayload]; omega, (hwr bytes hm).2⟩
+        · intro op plain hm
+          have := (hwz op plain hm).2; cases this
+    | str cps => exact refused .typeError rfl
+    | other => exact refused .typeError rfl
+  | sendPong arg =>
+    cases arg with
+    | bytes b =>
+      by_cases hbig : b.length > 125
+      · exact refused .valueError (by simp [doAct, hbig])
+      · refine viaLog (sendFrame Gen.opPong b none) (by simp [doAct, hbig]) ?_
+        obtain ⟨r, s', l, h, ht, hl, hwr, hwz⟩ := sendFrame_trace Gen.opPong b none s
+        refine ⟨r, s', l, h, ht, hl, ?_, ?_⟩
+        · intro bytes hm
+          exact ⟨_, _, by simp [wirePayload]; omega, (hwr bytes hm).2⟩
+        · intro op plain hm
+          have := (hwz op plain hm).2; cases this
+    | str cps => exact refused .typeError rfl
+    | other => exact refused .typeError rfl
+  | close code reason =>
+    refine viaLog (wsClose code reason) rfl ?_
+    obtain ⟨r, s', l, h, ht, hl, hwr, hwz⟩ := wsClose_trace code reason s hv
+    refine ⟨r, s', l, h, ht, hl, ?_, fun op plain hm => absurd hm (hwz op plain)⟩
+    intro bytes hm
+    obtain ⟨rb, hrb, hc, hlen, hb⟩ := hwr bytes hm
+    refine ⟨Gen.opClose, buildClosePayload code rb, ?_, hb⟩
+    have hcw : closeWire code rb = some (Gen.opClose, buildClosePayload code rb) := by
+      unfold closeWire
+      cases code with
+      | none => rfl
+      | some c =>
+        have h1 := hc c rfl
+        simp only [buildClosePayload, List.length_append, beBytes_length] at hlen ⊢
+        rw [if_pos ⟨h1, by omega⟩]
+    cases reason with
+    | bytes b => cases hrb; exact hcw
+    | str cps => cases hrb; exact hcw
+    | other => cases hrb
+  | sessionClose =>
+    by_cases ho : s.sockOpen = true
+    · have : (doAct .sessionClose s).state.trace = [.res .ok, .sockClose] ++ s.trace := by
+        simp [doAct, logRes, closeSocket, ho, bind, M.bind, log, modS, pure, M.pure, Res.state]
+      exact ⟨_, this, by simp [isWriteObs], by simp, by simp⟩
+    · have : (doAct .sessionClose s).state.trace = [.res .ok] ++ s.trace := by
+        simp [doAct, logRes, closeSocket, ho, bind, M.bind, log, modS, pure, M.pure, Res.state]
+      exact ⟨_, this, by simp [isWriteObs], by simp, by simp⟩
+  | abandon w => exact ⟨[], rfl, by simp, by simp, by simp⟩
+
+/-- non-vacuity: states that do not accept a write (no socket / closing / `sendall` raising) -/
+example : (doAct (.sendBinary (.bytes [1]) false) { exState with sockOpen := false }).state.trace =
+    [.res .wsUnavailable] := by decide
+example : (doAct (.sendPing (.bytes [1])) { exState with closing := true }).state.trace = [.res .wsClosing] := by
+  decide
+example : (doAct (.sendPing (.bytes [1]))
+    { exState with cfg := { exState.cfg with writeFails := (fun _ => true) } }).state.trace =
+    [.res .transportFail, .wrFail [0x89, 0x81, 1, 0x37, 0xfa, 0x21, 0]] := by decide
+
+/-- **Control payloads are at most 125 bytes** (repaired `close()`), in decoder terms and in
+    every state: whatever a call writes decodes — by the independent server-side decoder — as
+    one complete frame with FIN=1 and RSV1-3=0, and if it is a control frame (Close, Ping, Pong)
+    its payload is at most 125 bytes. -/
+theorem control_bound (a : Act) (s : Sys) (hv : s.cfg.v.closeArgs = true)
+    (hk : (s.cfg.maskKey s.keyCtr).length = 4) :
+    ∃ l, (doAct a s).state.trace = l ++ s.trace ∧
+      ∀ bytes, Obs.wr bytes ∈ l → ∃ d, Spec.decodeClientFrame bytes = some (d, []) ∧
+        d.fin = 1 ∧ d.rsv1 = 0 ∧ d.rsv2 = 0 ∧ d.rsv3 = 0 ∧ d.key = s.cfg.maskKey s.keyCtr ∧
+        wirePayload a = some (d.opcode, d.payload) ∧ (8 ≤ d.opcode → d.payload.length ≤ 125) := by
+  obtain ⟨l, ht, -, hwr, -⟩ := writes_only_the_frame a s hv
+  refine ⟨l, ht, fun bytes hm => ?_⟩
+  obtain ⟨op, payload, hw, hb⟩ := hwr bytes hm
+  obtain ⟨hop, hctl⟩ := wirePayload_op a op payload hw
+  have := roundtrip op 1 0 0 0 payload _ [] bytes (by omega) (by omega) (by omega) (by omega) (by omega) hk hb
+  rw [List.append_nil] at this
+  exact ⟨_, this, rfl, rfl, rfl, rfl, rfl, hw, hctl⟩
+
+/-- the state of the examples under the pinned commit's `close()` (finding D3) -/
+def exStateD3 : Sys := { exState with cfg := { exState.cfg with v := { closeArgs := false } } }
+
+/-- **The pinned commit did not have the bound** (finding D3, since repaired): with
+    `closeArgs = false`, `close(1000, b'x' * 124)` is accepted and writes a Close frame whose
+    payload is 126 bytes long — an invalid control frame. -/
+theorem close_oversize_fails :
+    ∃ (s : Sys) (code : Option Nat) (reason : Arg) (bytes : Bytes) (d : Spec.Decoded),
+      s.cfg.v.closeArgs = false ∧ Accepting s ∧
+      (doAct (.close code reason) s).state.trace = [.res .ok, .wr bytes] ++ s.trace ∧
+      Spec.decodeClientFrame bytes = some (d, []) ∧ d.opcode = 8 ∧ d.payload.length = 126 := by
+  refine ⟨exStateD3, some 1000, .bytes (List.replicate 124 0x78),
+    [0x88, 0xfe, 0, 126, 1, 0x37, 0xfa, 0x21] ++ maskPayload [1, 0x37, 0xfa, 0x21] ([3, 232] ++ List.replicate 124 0x78),
+    { fin := 1, rsv1 := 0, rsv2 := 0, rsv3 := 0, opcode := 8, key := [1, 0x37, 0xfa, 0x21],
+      payload := [3, 232] ++ List.replicate 124 0x78 },
+    rfl, ⟨rfl, rfl, rfl, rfl⟩, ?_, ?_, rfl, ?_⟩
+  · set_option maxRecDepth 8192 in decide
+  · set_option maxRecDepth 8192 in decide
+  · set_option maxRecDepth 8192 in decide
+
+/-- … and it let `struct.error` escape instead of ValueError for a code that does not fit 16 bits. -/
+theorem close_code_structError_fails :
+    (doAct (.close (some 70000) (.bytes [])) exStateD3).state.trace = [.res .structError] := by decide
+
+/-- the repaired code on the same inputs (non-vacuity of `control_bound` / `reject_writes_nothing`) -/
+example : (doAct (.close (some 70000) (.bytes [])) exState).state.trace = [.res .valueError] := by decide
+set_option maxRecDepth 4096 in
+example : (doAct (.close (some 1000) (.bytes (List.replicate 123 0x78))) exState).state.trace =
+    [.res .ok, .wr ([0x88, 0xfd, 1, 0x37, 0xfa, 0x21] ++
+      maskPayload [1, 0x37, 0xfa, 0x21] ([3, 232] ++ List.replicate 123 0x78))] := by decide
+
+/-! ## The whole connection: every frame the client ever writes -/
+
+/-- **Every frame written during a connection is a valid client frame** — not only those the
+    application asks for, but also the ones the library sends on its own (automatic Ping,
+    automatic Pong, the Close echo, the Close after a protocol error).  For the repaired
+    `close()`, every configuration, every application (any calls with any arguments in reaction
+    to any event), every server behaviour and environment script: each `sendall` that
+    succeeded carried either the HTTP upgrade request or exactly one complete frame which the
+    independent decoder reads as FIN=1, RSV1-3=0, a data or control opcode, masked with a key
+    from the key source, and at most 125 payload bytes if it is a control frame. -/
+theorem every_written_frame_is_valid (cfg : Cfg) (react : React) (env : List EnvStep)
+    (hv : cfg.v.closeArgs = true) (hk : ∀ k, (cfg.maskKey k).length = 4) :
+    ∀ bytes, Obs.wr bytes ∈ (runAll cfg react env).trace →
+      bytes = cfg.request ∨
+      ∃ d, Spec.decodeClientFrame bytes = some (d, []) ∧
+        d.fin = 1 ∧ d.rsv1 = 0 ∧ d.rsv2 = 0 ∧ d.rsv3 = 0 ∧
+        (d.opcode = 1 ∨ d.opcode = 2 ∨ d.opcode = 8 ∨ d.opcode = 9 ∨ d.opcode = 10) ∧
+        (∃ k, d.key = cfg.maskKey k) ∧ (8 ≤ d.opcode → d.payload.length ≤ 125) := by
+  intro bytes hm
+  rcases runAll_writes cfg react env hv bytes hm with ⟨op, payload, k, hb, hop, hctl⟩ | h
+  · right
+    have := roundtrip op 1 0 0 0 payload _ [] bytes (by omega) (by omega) (by omega) (by omega) (by omega) (hk k) hb
+    rw [List.append_nil] at this
+    exact ⟨_, this, rfl, rfl, rfl, rfl, hop, ⟨k, rfl⟩, hctl⟩
+  · exact Or.inl h
+
+
+/-- non-vacuity: an application that sends a binary message and then closes as soon as the
+    socket is connected; the trace shows the request, the data frame and the Close frame -/
+example :
+    (runAll { request := [0x47, 0x45, 0x54] }
+      (fun hist => if hist.length = 2 then [.sendBinary (.bytes [1, 2, 3]) false, .close (some 1000) (.bytes [])] else [])
+      []).trace.reverse.take 7 =
+      [.ev .connecting, .wr [0x47, 0x45, 0x54], .ev (.connected false),
+       .wr [0x82, 0x83, 0, 0, 0, 0, 1, 2, 3], .res .ok, .wr [0x88, 0x82, 0, 0, 0, 0, 3, 232], .res .ok] := by
+  decide +kernel
+
 end Lomond.C03
